@@ -142,8 +142,7 @@ Definition w0 := mkW WIdle 0 false false 0.
 Record ghost := mkG {
   g_out : list (N * N * N);     (* flush log: (job id, offset in the job's output, length) *)
   g_fin : list (N * N);         (* (job id, total compressed size) of every fully flushed job, in order *)
-  g_ck : list (N * list (N * N * N));     (* checksum appended: (job id, serial log at that time) *)
-  g_misuse : bool }.            (* API contract broken by the program: new input offered after the frame was ended by ZSTD_e_end *)
+  g_ck : list (N * list (N * N * N)) }.   (* checksum appended: (job id, serial log at that time) *)
 
 Record state := mkS { mt : mtc; jobs : list job; sr : ser; pl : pools; cl : cloc; ws : list wloc; gh : ghost }.
 
@@ -399,10 +398,9 @@ Fixpoint start_ops (cfg : config) (s : state) (ops : list cop) : state :=
   | [] => stop_ops s
   | OpCS e i o :: r =>
       let c := cl s in
-      let g := gh s in
-      let s0 := if ended (mt s) && (0 <? i) then set_gh (mkG (g_out g) (g_fin g) (g_ck g) true) s else s in
-      let s1 := set_cl (mkCl (c_pc c) r e e false i o i o (c_use c) (c_fp c) (c_res c)) s0 in
+      let s1 := set_cl (mkCl (c_pc c) r e e false i o i o (c_use c) (c_fp c) (c_res c)) s in
       if alldone (mt s) && negb (ended (mt s)) then stop_ops s    (* no open frame: ZSTD_compressStream2 always initialises first; not an API behaviour *)
+      else if ended (mt s) && (0 <? i) && negb (is_continue e) then stop_ops s   (* new input after ZSTD_e_end closed the frame: API contract broken *)
       else if ended (mt s) && is_continue e then    (* stage_wrong: the session is reset, the next call must re-initialise *)
         match r with
         | OpCS _ _ _ :: _ => stop_ops (record_res RErr s1)
@@ -456,7 +454,7 @@ Definition complete_job (cfg : config) (s : state) : state :=
   let m := mt s in let k := slot cfg (done m) in let j := getj s k in
   let g := gh s in
   let s1 := set_job k (j_set_dst false (j_upd_flush 0 (j_ckneed j) (j_flushed j) j)) s in
-  let s2 := set_gh (mkG (g_out g) (g_fin g ++ [(j_id j, j_csize j)]) (g_ck g) (g_misuse g)) s1 in
+  let s2 := set_gh (mkG (g_out g) (g_fin g ++ [(j_id j, j_csize j)]) (g_ck g)) s1 in
   flush_return cfg (set_mt (mt_ring (done m + 1) (next m) (ready m) (ended m) (alldone m) m) s2).
 
 (* ZSTDMT_flushProduced after the wait loop *)
@@ -468,11 +466,11 @@ Definition flush_body (cfg : config) (s : state) : state :=
     let ck := fin && j_ckneed j in
     let cs := if ck then j_csize j + 4 else j_csize j in
     let g := gh s in
-    let g1 := if ck then mkG (g_out g) (g_fin g) (g_ck g ++ [(j_id j, s_log (sr s))]) (g_misuse g) else g in
+    let g1 := if ck then mkG (g_out g) (g_fin g) (g_ck g ++ [(j_id j, s_log (sr s))]) else g in
     if 0 <? cs then
       let c := cl s in
       let tf := N.min (cs - j_flushed j) (c_out c) in
-      let g2 := if 0 <? tf then mkG (g_out g1 ++ [(j_id j, j_flushed j, tf)]) (g_fin g1) (g_ck g1) (g_misuse g1) else g1 in
+      let g2 := if 0 <? tf then mkG (g_out g1 ++ [(j_id j, j_flushed j, tf)]) (g_fin g1) (g_ck g1) else g1 in
       let fl := j_flushed j + tf in
       let j1 := j_upd_flush cs (if ck then false else j_ckneed j) fl j in
       let s1 := set_gh g2 (set_cl (cl_io (c_e2 c) (c_fwd c) (c_in c) (c_out c - tf) c) (set_job k j1 s)) in
@@ -662,7 +660,7 @@ Definition init (cfg : config) (ops : list cop) : state :=
                 (mkPl None 0 0 (2 * n + 3) 1 n 0 n false)
                 (mkCl CDone [] EContinue EContinue false 0 0 0 0 (0, 0) fp0 [])
                 (repeat w0 (c_nbw cfg))
-                (mkG [] [] [] false) in
+                (mkG [] [] []) in
   start_ops cfg s0 ops.
 
 (* ------------------------------------------------------------------ *)
